@@ -411,6 +411,12 @@ else:
                     value=field_value, is_default=is_default
                 )
 
+            # extra="allow"
+            for name, field_value in (
+                getattr(value, "__pydantic_extra__", None) or {}
+            ).items():
+                kwargs[name] = Argument(value=field_value)
+
             return ([], kwargs)
 
         @staticmethod
